@@ -419,7 +419,7 @@ var itemKW = map[string]bool{"spec": true, "pred": true, "func": true, "extern":
 	"invariant": true, "monitor": true, "directive": true, "axiom": true, "owned": true}
 var clauseKW = map[string]bool{"requires": true, "ensures": true, "assigns": true, "decreases": true, "loop": true,
 	"behavior": true, "assumes": true, "ghost": true, "pure": true, "mayalloc": true, "prop": true, "cases": true,
-	"inv": true, "storerule": true, "lockrequires": true, "consumes": true, "releases": true, "callghost": true}
+	"inv": true, "storerule": true, "lockrequires": true, "consumes": true, "releases": true, "callghost": true, "uses": true}
 
 type logical struct {
 	text string
@@ -547,6 +547,16 @@ func ParseFile(name, src string) (f *File, err error) {
 		case "lemma":
 			lm := &Lemma{Pos: l.pos}
 			lm.Name = p.ident()
+			if p.accept("[") {
+				// type parameters: lemma name[T, U](...)
+				for {
+					lm.TParams = append(lm.TParams, p.ident())
+					if !p.accept(",") {
+						break
+					}
+				}
+				p.expect("]")
+			}
 			lm.Params = p.parseParams()
 			p.eof()
 			f.Lemmas = append(f.Lemmas, lm)
@@ -690,6 +700,27 @@ func ParseFile(name, src string) (f *File, err error) {
 				}
 			}
 			p.eof()
+		case "uses":
+			u := &Use{Pos: l.pos, Text: l.text}
+			e := p.parseExpr()
+			p.eof()
+			c, ok := e.(*Call)
+			if !ok {
+				p.fail("uses: lemma application expected")
+			}
+			id, ok := c.Fun.(*Ident)
+			if !ok {
+				p.fail("uses: lemma name expected")
+			}
+			u.Name, u.Args = id.Name, c.Args
+			switch {
+			case curLemma != nil:
+				curLemma.Uses = append(curLemma.Uses, u)
+			case cur != nil:
+				cur.Uses = append(cur.Uses, u)
+			default:
+				p.fail("uses outside of a contract or lemma")
+			}
 		case "consumes", "releases":
 			if cur == nil {
 				p.fail("%s outside of a function contract", kw)
